@@ -224,6 +224,7 @@ type RelayRun struct {
 	Kicks          []KickRecord
 	goBase         map[string]int
 	GoroutineDiff  string
+	pushHeld       []heldPush // push-target connections still held (RelayPlan.PushHoldMs)
 	// the "RTSP relay pull overtaken by a publisher" scenario of C03
 	rtspOrigins  []*heldRtspOrigin
 	rtspPullApis []*ApiCall
@@ -280,6 +281,11 @@ func ExecRelay(k *sim.Kernel, pl RelayPlan) *RelayRun {
 		k.RegisterStub(addr, func(c *sim.Conn) (sim.ConnHandler, time.Duration) {
 			st := actors.NewRtmpServerStub(k, fmt.Sprintf("pushtarget%d", len(rr.PushCons)), c)
 			rr.PushCons = append(rr.PushCons, &ConsState{Plan: ConsPlan{Stream: -1, Proto: "push"}, Push: st, Joined: true})
+			if pl.PushHoldMs > 0 {
+				c.Hold(true)
+				rr.pushHeld = append(rr.pushHeld, heldPush{c, k.NowMs()})
+				k.Fault("push_target_slow")
+			}
 			return st, 0
 		})
 	}
@@ -319,6 +325,7 @@ func ExecRelay(k *sim.Kernel, pl RelayPlan) *RelayRun {
 }
 
 func (rr *RelayRun) epilogue(k *sim.Kernel) {
+	rr.releasePushHolds(k, true)
 	for _, p := range rr.Pubs {
 		if p.Idled && p.Actor != nil {
 			p.IdleClosed = p.Actor.Closed
@@ -375,7 +382,28 @@ func (rr *RelayRun) sessionIdOf(remote string) string {
 	return id
 }
 
+type heldPush struct {
+	c  *sim.Conn
+	at int64
+}
+
+// releasePushHolds lets slow push targets answer once their delay has passed (all: whatever their age).
+func (rr *RelayRun) releasePushHolds(k *sim.Kernel, all bool) {
+	keep := rr.pushHeld[:0]
+	for _, h := range rr.pushHeld {
+		if all || k.NowMs()-h.at >= int64(rr.Plan.PushHoldMs) {
+			h.c.Hold(false)
+		} else {
+			keep = append(keep, h)
+		}
+	}
+	rr.pushHeld = keep
+}
+
 func (rr *RelayRun) exec(k *sim.Kernel, op RelayOp) {
+	if len(rr.pushHeld) > 0 {
+		rr.releasePushHolds(k, false)
+	}
 	switch op.Kind {
 	case "settle":
 		k.Settle()
